@@ -60,7 +60,9 @@ Threshold_Watcher<Traits>::check() {
   typename TW_Pending_List::iterator i = init.pending.begin();
   assert(i != init.pending.end());
   const typename Traits::Threshold& current = Traits::get();
-  while (!Traits::less_than(current, i->deadline())) {
+  // Note: a threshold is reached as soon as the weight equals it
+  // (Traits::less_than(a, b) also holds when a and b are equal).
+  while (Traits::less_than(i->deadline(), current)) {
     i->handler().act();
     i->expired_flag() = true;
     i = remove_threshold(i);
